@@ -20,8 +20,8 @@
 #endif
 /* PARTS selects which post-conditions a harness instance asserts (the solver cost of all of them in one query is
  * several times the sum of the separate queries): 1 lock-step with LZHUF, 2 tree/count/leaf-map consistency,
- * 4 group consistency (= 16 membership + 32 leaders/count), 8 free-group list.  Every part is asserted by some
- * instance in the plan. */
+ * (= 64 tree shape + 128 counts + 256 leaf map), 4 group consistency (= 16 membership + 32 leaders/count),
+ * 8 free-group list.  Every part is asserted by some instance in the plan. */
 #ifndef PARTS
 #define PARTS 15
 #endif
@@ -347,9 +347,13 @@ static int lh1_inv(const LHALH1Decoder *d, unsigned limit)
 
 static void check_inv_mid(const LHALH1Decoder *d, unsigned pending, unsigned limit)
 {
-#if PARTS & 2
+#if PARTS & (2 | 64)
 	CHECK(inv_tree(d), "C02 consistency: proper binary tree, children above their parent, parent links, one leaf per symbol");
+#endif
+#if PARTS & (2 | 128)
 	CHECK(inv_freq_mid(d, pending, limit), "C02 consistency: table sorted by count, branch count = sum of children, root count <= limit");
+#endif
+#if PARTS & (2 | 256)
 	CHECK(inv_leafmap(d), "C02 consistency: leaf_nodes[] is the inverse of the leaves' symbols");
 #endif
 #if PARTS & 4
